@@ -385,6 +385,44 @@ fn enumerate(_tier: Tier, idx: u32, of: u32, cx: &mut Cx) -> CaseResult {
     cx.add_evals(1);
     cx.inner_nontrivial += 1;
 
+    // Two opened values of one archive: the tree is stored through one of them while the
+    // other one, opened earlier, holds its block directory; the unchanged tree backed up
+    // through that one must not store anything again.
+    {
+        crate::engine::heartbeat();
+        let sub = cx.dir("two-handles");
+        std::fs::create_dir_all(&sub).unwrap();
+        let m = crate::probes::plain_meta();
+        let mut t = Tree::empty_root(tree::Meta { mode: 0o755, ..m });
+        for (name, pool, len) in [("a", 2u8, 300u32), ("b", 3, 5000), ("c", 4, 40), ("d", 5, 1), ("e", 6, 900), ("f", 7, 2500)] {
+            t.0.insert(format!("/{name}"), tree::Node { kind: tree::Kind::File { pool, len }, meta: m });
+        }
+        let w = World::new(&sub, &t);
+        let r = ops::backup_through_two_handles(&w.arch, &w.src, Opts { hunk: 3, block: 1000, cap: 400 });
+        ensure!(r.clean(), "C14/probe-two-handles/backup-error", "{}", r.describe());
+        let stats = r.result.as_ref().unwrap();
+        ensure!(
+            stats.written_blocks == 0 && stats.errors == 0 && stats.new_files == 0 && stats.modified_files == 0 && stats.unmodified_files == stats.files,
+            "C14/unchanged-tree-files-read-again/probe-two-handles",
+            "the unchanged tree backed up through an archive value opened before another one stored it: {} files, {} unmodified, {} modified, {} new, {} blocks written, {} errors",
+            stats.files,
+            stats.unmodified_files,
+            stats.modified_files,
+            stats.new_files,
+            stats.written_blocks,
+            stats.errors
+        );
+        let ra = format::scan(&w.arch);
+        ensure!(
+            addrs_by_path(&ra, 0) == addrs_by_path(&ra, 1) && !addrs_by_path(&ra, 1).is_empty(),
+            "C14/addresses-differ/probe-two-handles",
+            "versions 0 and 1 record different addresses"
+        );
+        crate::engine::force_remove(&sub);
+        cx.add_evals(1);
+        cx.inner_nontrivial += 1;
+    }
+
     // a basis of two hunks with the default options (more than 100 000 entries)
     crate::engine::heartbeat();
     let (opts, tree) = crate::probes::over_default_hunk_tree();
